@@ -173,10 +173,17 @@ func (s *Sched) park(g uint64, op *Op) {
 	}
 	<-t.wake
 	if s.aborting.Load() {
-		// leave through Goexit so deferred unlocks / closes of the system run
 		s.mu.Lock()
 		t.op = nil
 		s.mu.Unlock()
+		if op.Kind == "start" {
+			// A goroutine that was created but not yet scheduled when the run is torn down
+			// still runs its function (with pass-through hooks): `go f()` guarantees that f
+			// runs, and f may owe its creator something (a deferred WaitGroup.Done, a close).
+			// The world has cancelled contexts and closed connections by now, so f winds down.
+			return
+		}
+		// leave through Goexit so deferred unlocks / closes of the system run
 		runtime.Goexit()
 	}
 }
